@@ -147,8 +147,13 @@ def check_C15(run):
     nt = lambda c: any('"ev":"AcceptTimeout"' in l for l in c)
     replay_validate(run, sel + seld, ["service"], "ServiceTrace", svc_trace_cfg(), "C15 gated schedules with injected accept-deadline expiries",
                     nontrivial=nt, classify=svc_classify("C15"), shards=16)
+    # real clock: real listeners, 150 ms timeout, one-sided margins
+    from props_tables import table_replay, TR_CFG, GEN_CFG
+    rc = [l for l in run.generate("RealClockGen", GEN_CFG, ["rc_scen.ndjson"])["rc_scen.ndjson"] if '"resolver"' not in l]
+    table_replay(run, rc * (3 if thorough else 1), ["realclock"], "RealClock", TR_CFG, "C15 real-clock scenarios (abstract unix / tcp, 150 ms idle timeout)", shards=min(len(rc), 12),
+                 nontrivial=lambda c: '"kind":"held"' in c)
     run.write_evidence("model_checking",
-        "schedules as for C14 restricted to serving calls started with an idle timeout; expiries injected through the controlled listener at every position; non-trivial = at least one expiry was delivered to the accept loop",
+        "schedules as for C14 restricted to serving calls started with an idle timeout; plus real-clock scenarios of spec/RealClock.tla (idle, 1-3 held connections for 5 x timeout, no timeout; abstract unix and tcp; after the timeout return: dial refused, same address served again); expiries injected through the controlled listener at every position; non-trivial = at least one expiry was delivered to the accept loop",
         exhaustive=False,
         assumptions=["expiry is injected (a net.Error with Timeout()=true), the deadline arithmetic of real listeners is covered by the real-clock part",
                      "controlled listener records SetDeadline/Accept/Close and never delays by itself"])
@@ -282,6 +287,9 @@ def check_C13(run):
     nt = lambda c: any('"ev":"Introspect"' in l for l in c) and any('"res":"refused"' in l for l in c)
     replay_validate(run, sel + msel, ["service"], "ServiceTrace", svc_trace_cfg(), "C13 registration histories with client-side introspection",
                     nontrivial=nt, classify=svc_classify("C13"), shards=16)
+    from props_tables import table_replay, TR_CFG, GEN_CFG
+    rs = [l for l in run.generate("RealClockGen", GEN_CFG, ["rc_scen.ndjson"])["rc_scen.ndjson"] if '"resolver"' in l]
+    table_replay(run, rs, ["realclock"], "RealClock", TR_CFG, "C13 Resolver helpers against a resolver service (GetInfo, Resolve, self, unknown)", shards=1, nontrivial=lambda c: True)
     run.write_evidence("model_checking",
         "histories = environment histories of spec/ServiceGen.tla: (a) fine-grained, up to 8 actions over {Register i1/i2 (duplicates, while serving, between rounds), Install, Serve, Connect, Deliver, Shutdown, End(introspect)}; (b) coarse, 10 actions over {Register, Install, Serve, Probe (= connect, accept, GetInfo + GetInterfaceDescription of every listed and of 8 candidate unlisted/refused names through the client helpers, close), Shutdown} covering two serving rounds; seeded samples; identity strings and description texts contain non-ASCII, <>&, U+2028 and an empty version; non-trivial = an introspection happened and at least one registration was refused",
         exhaustive=False,
